@@ -284,7 +284,8 @@ def check_sim(ctx, cc):
     system = sut_call("build_system", B.build_system, spec, c["route"])
     x = model.state()
     dx, sc = model.derivative(x, mask=model.flags())
-    dt = stable_dt(x, sc)
+    from vlib.ratelaw import tame_dt
+    dt = tame_dt(model, model.flags())
     N = cc["steps"]
     kw = dict(sampling_policy="on_iteration", time_step="%r s" % dt, t_max="%r s" % (dt * (N + 0.5)))
     cg = sut_call("simulate(cgmap)", S.simulate, system, [0], engine=sim.engine("euler"), cgmap=list(c["map"]), **kw)
